@@ -448,7 +448,7 @@ int main(int argc, char** argv) {
     bool early = false;
     uint64_t i = start;
     for (; i < ncases; i++) {
-      if ((i & 15) == 0 && now_s() - t0 > maxtime) { early = true; break; }
+      if (now_s() - t0 > maxtime) { early = true; break; }
       gen_case(seed, worker, i, b);
       status_set(i, b);
       alarm(percase_alarm);
